@@ -424,6 +424,22 @@ def p3_keywords(chk, quick):
             if isid and st != 0:
                 chk.violation('P3/parser-rejects-identifier', '`int %s = 1;` rejected (status %d) although %r is an identifier' % (w, st, w),
                               files={'input.c': ('int %s;\n' % w).encode()}, cmd='$CPROC_QBE input.c')
+    # keywords that reach phase 7 through a macro: used twice, stringified through a nested macro (the spelling as written),
+    # identically redefined after a use, and as the body of a function-like macro
+    srv = fs.server('fs')
+    for w in sorted(must | may):
+        kind = next((sp for sp, ws in kinds.items() if w in ws), None)
+        if kind is None:
+            continue
+        src = ('#define S(x) #x\n#define XS(x) S(x)\n#define K %s\n#define F(a) a %s\n; K K ; XS(K) ; F(1) F(2) ; XS(F(3)) ;\n'
+               '#define K %s\n#define F(a) a %s\n; K ; XS(K) F(4) ;\n' % (w, w, w, w))
+        g = run_single(srv, src)
+        n += 1
+        K = ('kw', kind)
+        want = [('punct', ';'), K, K, ('punct', ';'), ('string', '"%s"' % w), ('punct', ';'), ('number', '1'), K, ('number', '2'), K, ('punct', ';'),
+                ('string', '"3 %s"' % w), ('punct', ';'), ('punct', ';'), K, ('punct', ';'), ('string', '"%s"' % w), ('number', '4'), K, ('punct', ';')]
+        if g != want:
+            chk.violation('P3/keyword-through-macro', 'keyword %r through macros: expected %r, got %r' % (w, want, g), files={'input.c': src.encode()}, cmd='$CPROC_QBE -E input.c')
     # distinct C11 keywords must be distinct kinds (beyond the synonym groups)
     for sp, ws in kinds.items():
         c11 = [w for w in ws if w in clex.C11_KEYWORDS]
